@@ -152,12 +152,199 @@ def programs_factory(quick, seed):
     return h, judge
 
 
-HARNESSES = {"programs": programs_factory}
+# ------------------------------------------------------------------ every catalogue primitive's VJP / JVP with read-only (co)tangents
+
+def _freeze(v):
+    if isinstance(v, onp.ndarray):
+        v = v.copy()
+        v.flags.writeable = False
+        return v
+    if isinstance(v, dict):
+        return {k: _freeze(x) for k, x in v.items()}
+    if isinstance(v, (tuple, list)):
+        out = [_freeze(x) for x in v]
+        if isinstance(v, tuple) and hasattr(v, "_fields"):
+            return type(v)(*out)
+        return type(v)(out)
+    return v
+
+
+def _bytes(v):
+    if isinstance(v, dict):
+        return tuple(_bytes(x) for x in v.values())
+    if isinstance(v, (tuple, list)):
+        return tuple(_bytes(x) for x in v)
+    a = onp.asarray(v)
+    return (a.shape, str(a.dtype), a.tobytes())
+
+
+def catmem_harness(spec_name, spec_fn, T):
+    from .. import walk as W
+    from ..explore import Skip
+
+    def h(ch):
+        case = spec_fn(ch, T.at(0))
+        if case is None:
+            raise Skip("spec declined")
+        opts = [o for o in W.argnum_options(case) if o != "same"]
+        which = ch.choose("argnum", opts)
+        A = W.ag()
+        ag, vspace = A["autograd"], A["vspace"]
+        f = case.fn()
+        names = list(case.ops)
+        vals = [_freeze(case.ops[n]) for n in names]
+        argnum = which[0] if len(which) == 1 else tuple(which)
+        problems = []
+        with warnings.catch_warnings():
+            warnings.simplefilter("ignore")
+            with onp.errstate(all="ignore"):
+                try:
+                    f(W.NPX, *vals)
+                except Exception:
+                    raise Skip("NumPy rejects")
+                fa = lambda *a: f(A["anp"], *a)
+                before = _bytes(vals)
+                try:
+                    vjp, val = ag.make_vjp(fa, argnum)(*vals)
+                    if W._has_box(val, A):
+                        raise Skip("tracer in primal (C06)")
+                    vs = vspace(val)
+                    cots = [vs.ones(), vs.scalar_mul(vs.ones(), 0.37)] + list(vs.standard_basis())[:1]
+                    for ct in cots:
+                        ct = _freeze(ct)
+                        b0 = _bytes(ct)
+                        r1 = vjp(ct)
+                        k1 = _bytes(r1)
+                        r2 = vjp(ct)
+                        if _bytes(ct) != b0:
+                            problems.append("cotangent-bytes-changed")
+                        if _bytes(r2) != k1:
+                            problems.append("second-vjp-call-differs")
+                        if _bytes(r1) != k1:
+                            problems.append("earlier-result-modified")
+                    if _bytes(val) != _bytes(f(W.NPX, *vals)) and False:
+                        problems.append("primal-modified")
+                except Skip:
+                    raise
+                except ValueError as e:
+                    if "read-only" in str(e) or "not writeable" in str(e).lower() or "WRITEABLE" in str(e):
+                        problems.append("write-to-read-only-memory: " + str(e)[:80])
+                except Exception:
+                    pass        # unsupported / raising configurations are C01's and C15's subject
+                try:
+                    x = vals[which[0]] if len(which) == 1 else tuple(vals[i] for i in which)
+                    jvp = ag.make_jvp(fa, argnum)(*vals)
+                    xs = vspace(x)
+                    for tg in (xs.ones(), xs.scalar_mul(xs.ones(), -1.3)):
+                        tg = _freeze(tg)
+                        b0 = _bytes(tg)
+                        t1 = jvp(tg)[1]
+                        k1 = _bytes(t1)
+                        t2 = jvp(tg)[1]
+                        if _bytes(tg) != b0:
+                            problems.append("tangent-bytes-changed")
+                        if _bytes(t2) != k1 or _bytes(t1) != k1:
+                            problems.append("second-jvp-call-differs")
+                except ValueError as e:
+                    if "read-only" in str(e) or "not writeable" in str(e).lower():
+                        problems.append("write-to-read-only-memory (forward): " + str(e)[:80])
+                except Exception:
+                    pass
+                if _bytes(vals) != before:
+                    problems.append("input-bytes-changed")
+        return case, which, sorted(set(problems))
+
+    def judge(ch, out):
+        case, which, problems = out
+        v = []
+        for pr in problems:
+            v.append(W.mk_violation(PROP, spec_name, ch, case, which, "jvp" if "jvp" in pr or "tangent-" in pr or "forward" in pr else "vjp", pr.split(":")[0], pr, None))
+        return dict(v=v, nontrivial=True, outcome=(case.name, tuple(problems)), counts={"clean": int(not problems)},
+                    sample=dict(choices=list(ch.choices), prim=case.name, expr=case.expr, problems=problems))
+
+    return h, judge
+
+
+def _cat_table():
+    from .. import judges as J
+    from ..catalog.base import Tier
+    table = {}
+    for name, (fn, fam) in J.load_catalog().items():
+        def factory(quick, seed, name=name, fn=fn, fam=fam):
+            return catmem_harness(name, fn, Tier(quick, seed, reduced=True, cplx=(fam == "F")))
+        table["cat:" + name] = factory
+    return table
+
+
+# ------------------------------------------------------------------ container inputs: slices and repeated positions
+
+def containers_factory(quick, seed):
+    L = lib()
+    ag, np, ab = L["ag"], L["np"], L["ab"]
+    OUTS = ["T(x[0:2], x[0])", "T(x[0:2], x[1:3])", "T(x[1:], x[:2], x[::2])", "T(x[0], x[0])", "T(x[::-1], x[2])", "T(x[:2], x[:2])",
+            "T(x[0:2] + T(x[2]), x[1])", "T(T(x[1]) + x[0:2], x[0])", "np.sum(x[0]) * x[1] + x[0]", "T(x[0:1], x[-1], x[0])"]
+
+    def h(ch):
+        kind = ch.choose("container", ["tuple", "list"])
+        out = ch.choose("out", OUTS)
+        hist = ch.choose("history", list(itertools.product([0, 1], repeat=3)))
+        leaves = [ro(onp.array([0.5, -1.0]) + i) for i in range(3)]
+        x = tuple(leaves) if kind == "tuple" else list(leaves)
+        f = eval("lambda x: " + out, dict(np=np, T=lambda *a: ab.tuple(a)))
+        problems = []
+        with warnings.catch_warnings():
+            warnings.simplefilter("ignore")
+            try:
+                val = f(x)
+            except Exception:
+                from ..explore import Skip
+                raise Skip("the program itself is invalid for this container type")
+            try:
+                from autograd.core import vspace
+                vs = vspace(val)
+                cots = [_freeze(vs.ones()), _freeze(vs.scalar_mul(vs.ones(), 2.5))]
+                ref = [_bytes(ag.make_vjp(f)(x)[0](c)) for c in cots]
+                vjp, _ = ag.make_vjp(f)(x)
+                snaps = [_bytes(c) for c in cots]
+                kept = []
+                for step, k in enumerate(hist):
+                    r = vjp(cots[k])
+                    if _bytes(r) != ref[k]:
+                        problems.append("vjp-call-differs-from-fresh-call")
+                    for rr, bb in kept:
+                        if _bytes(rr) != bb:
+                            problems.append("earlier-vjp-result-modified")
+                    kept.append((r, _bytes(r)))
+                    if [_bytes(c) for c in cots] != snaps:
+                        problems.append("cotangent-bytes-changed")
+                if _bytes(x) != _bytes(tuple(leaves)):
+                    problems.append("input-bytes-changed")
+            except ValueError as e:
+                if "read-only" in str(e) or "not writeable" in str(e).lower():
+                    problems.append("write-to-read-only-memory")
+                else:
+                    problems.append("raised: " + str(e)[:80])
+            except Exception as e:
+                problems.append("raised: %s: %s" % (type(e).__name__, str(e)[:80]))
+        return kind, out, hist, sorted(set(problems))
+
+    def judge(ch, o):
+        kind, out, hist, problems = o
+        v = [violation(PROP, "containers", "-", "vjp", pr.split(":")[0], dict(container=kind), ch.choices, dict(out=out, history=list(hist)), pr, None,
+                       "# container input (3 read-only (2,) arrays), f = lambda x: %s, vjp history %r" % (out, list(hist))) for pr in problems]
+        return dict(v=v, nontrivial=True, outcome=(out, tuple(problems)), counts={}, sample=dict(choices=list(ch.choices), f="lambda x: " + out, history=list(hist), problems=problems))
+
+    return h, judge
+
+
+HARNESSES = {"programs": programs_factory, "containers": containers_factory}
+HARNESSES.update(_cat_table())
 
 
 def run(ctx):
     rep = Report("exploration")
     run_harnesses(ctx, rep, __name__, ["programs"], depth=4 if ctx.quick else 6)
+    run_harnesses(ctx, rep, __name__, ["containers"] + [h for h in HARNESSES if h.startswith("cat:")], depth=2)
     rep.add(rule="leaf = (shape, program of n<=%d ops over 8 unary / 2 binary op forms with operands from x, C, earlier results, "
                  "output position or tuple, 3-call history over 2 (co)tangents); non-trivial = sparse use or fan-out > 1" % (2 if ctx.quick else 3))
     rep.assumptions = ["shapes (2,), (2,3); every array handed in is writeable=False and byte-snapshotted",
